@@ -859,7 +859,7 @@ impl Prop for C07 {
                     };
                     let len = *rng.pick(&[0u64, 8, 40, 200, 900]);
                     // sometimes overlapping the previous big request's last rows: fails at one of its last statements
-                    let base = if big_base > 1000 && rng.chance(1, 4) { big_base - rng.range(1, 3) - n + 1 } else { big_base };
+                    let base = if big_base > 1000 && rng.chance(1, 4) { (big_base + 1).saturating_sub(rng.range(1, 3) + n) } else { big_base };
                     let base = base.max(1000);
                     ops.push(format!("txbig {n} {base} {len}"));
                     big_base = big_base.max(base + n);
